@@ -186,11 +186,19 @@ def stateExist (env : Env) (st : Store) (parts : List String) : Bool :=
                   || STATE_CALLABLE_ATTRS.contains a
   | _ => false
 
-/-- `getattr(state_val, a)`: instance dict first, then the public helper methods of the class -/
+/-- the public attributes of python's `str` (a `StateVal` is a `str`): `[a for a in dir(str) if a[0] != '_']` -/
+def STR_ATTRS : List String :=
+  ["capitalize", "casefold", "center", "count", "encode", "endswith", "expandtabs", "find", "format", "format_map", "index", "isalnum", "isalpha", "isascii", "isdecimal", "isdigit", "isidentifier", "islower", "isnumeric", "isprintable", "isspace", "istitle", "isupper", "join", "ljust", "lower", "lstrip", "maketrans", "partition", "removeprefix", "removesuffix", "replace", "rfind", "rindex", "rjust", "rpartition", "rsplit", "rstrip", "split", "splitlines", "startswith", "strip", "swapcase", "title", "translate", "upper", "zfill"]
+
+/-- names that `getattr` finds on the class when the instance dictionary has no such key: the helper methods of
+`StateVal` and the methods of `str` -/
+def methodAttr (a : String) : Bool := STATE_CALLABLE_ATTRS.contains a || STR_ATTRS.contains a
+
+/-- `getattr(state_val, a)`: instance dict first, then the methods of the class -/
 def snapGetattr (s : Snap) (a : String) : Out :=
   match aget a s.dict with
   | some v => .attr v
-  | Option.none => if STATE_CALLABLE_ATTRS.contains a then .callable else .exc "AttributeError"
+  | Option.none => if methodAttr a then .callable else .exc "AttributeError"
 
 def stateGet (env : Env) (st : Store) (parts : List String) : Out :=
   match parts with
@@ -311,6 +319,10 @@ inductive ArgRef
   | none | plain (v : Val) | snap (i : Nat)
 deriving DecidableEq, Repr
 
+/-- a `StateVal` used as an ordinary value: a `str` (its JSON rendering is the quoted string; state strings contain
+no `"` or `\\` here) -/
+def svVal (s : Snap) : Val := ⟨"\"" ++ s.value ++ "\"", s.value⟩
+
 /-- the string `"None"` as an assigned value -/
 def noneStr : Val := ⟨"\"None\"", "None"⟩
 
@@ -328,7 +340,7 @@ def storeDotted (fx : Fixes) (env : Env) (st : Store) (parts : List String) (v :
       match v with
       | .none => stateSetattr fx env st parts Val.none
       | .plain x => stateSetattr fx env st parts x
-      | .sv _ => (st, .unmodelled)
+      | .sv s => stateSetattr fx env st parts (svVal s)       -- the StateVal object itself becomes the attribute value
     else (st, .exc "NameError")
 
 /-- `del p0.p1…` (`ast_delete`, Attribute branch).  After the fix `ast_attribute_collapse(arg1)` checks the head: a Python
@@ -342,12 +354,27 @@ def delDotted (fx : Fixes) (env : Env) (st : Store) (parts : List String) : Stor
     if fx.delPyAttr && headDefined env st h then (st, .py "delattr")
     else stateDelete st parts
 
+/-- `d.n += "sfx"` (`ast_augassign`): a Python object's attribute when the head is bound; otherwise the target is
+loaded (`NameError` for a missing entity), the in-place operator is applied – a `StateVal` is a `str`, so the result is
+a plain string – and the result is assigned (`recurse_assign`). -/
+def augDotted (fx : Fixes) (env : Env) (st : Store) (parts : List String) (sfx : String) : Store × Out :=
+  match parts with
+  | [d, n] =>
+    if headDefined env st d then (st, .py "aug")
+    else match loadDotted env st [d, n] with
+      | .sv s => storeDotted fx env st [d, n] (.plain ⟨"\"" ++ s.value ++ sfx ++ "\"", s.value ++ sfx⟩)
+      | .exc c => (st, .exc c)
+      | .callable => (st, .exc "TypeError")                 -- a service-call closure `+= str`
+      | _ => (st, .unmodelled)
+  | _ => (st, .unmodelled)
+
 /-! ## operations issued by a script (and by the outside world) -/
 
 inductive Op
   | load (parts : List String)                       -- expression `d.n` / `d.n.a`
   | store (parts : List String) (v : ArgRef)         -- `d.n = v` / `d.n.a = v`
   | delStmt (parts : List String)                    -- `del d.n` / `del d.n.a`
+  | aug (parts : List String) (sfx : String)         -- `d.n += "sfx"`
   | get (parts : List String)                        -- `state.get("…")`
   | set (parts : List String) (v : ArgRef) (na : Option Attrs) (kw : Attrs)   -- `state.set("…", v, na, **kw)`
   | setattr (parts : List String) (v : Val)          -- `state.setattr("…", v)`
@@ -386,6 +413,7 @@ def step (fx : Fixes) (env : Env) (ms : MState) : Op → MState × Out
     | some a => withStore ms (storeDotted fx env ms.store parts a)
     | Option.none => (ms, .unmodelled)
   | .delStmt parts => withStore ms (delDotted fx env ms.store parts)
+  | .aug parts sfx => withStore ms (augDotted fx env ms.store parts sfx)
   | .get parts => (capture ms (stateGet env ms.store parts), stateGet env ms.store parts)
   | .set parts v na kw =>
     match resolveArg ms.snaps v with
